@@ -213,6 +213,7 @@ fn operand(form: &str, t: &Ty, k: usize, name: &str, n: u32, sp: &str, parts: &m
             format!("q_{name}.m")
         }
         "lit" => lit(0),
+        "hexlit" => "0x05".to_string(),
         "len" => {
             parts.locals.push(format!("\tvar l_{name}: [3]i32 = [1i32, 2i32, 3i32];"));
             format!("|l_{name}|")
